@@ -70,6 +70,10 @@ def check_counter_method(out, facts, fn, kind):
     rv = strip(v)
     want = 'io' if kind == 'read' else 'byte'
     good_ret = isinstance(rv, tuple) and rv[0] == 'res' and isinstance(strip(rv[1]), tuple) and strip(rv[1])[0] == want
+    if kind == 'read' and not good_ret:
+        # `let r = inner.read(into)?; ..; Ok(r)` / `Ok(())`: the unit payload is the forwarded result once its error was propagated
+        propagated = all(any(e[0] == '?OK' for e in p) for p in ps if not (p and p[-1][0] in ('?ERR', 'ERR')))
+        good_ret = isinstance(rv, tuple) and rv[0] == 'res' and strip(rv[1]) in (('unit',), ('tuple', [])) and propagated
     out.ob('R19.1', key + '/returns-forwarded', good_ret, 'does not return the wrapped input\'s result unchanged: ' + sym.vstr(v), loc)
     return n_sets
 
